@@ -440,6 +440,9 @@ func (r *ReplayCC) concrete() *Concrete {
 	if cc.Case.Recv.EonKey == "" {
 		cc.Case.Recv.EonKey = "main"
 	}
+	if cc.Case.Recv.Pos == "" {
+		cc.Case.Recv.Pos = "middle"
+	}
 	return cc
 }
 
